@@ -1,0 +1,45 @@
+//go:build verif
+// +build verif
+
+/*
+SPDX-License-Identifier: Apache-2.0
+*/
+
+package presentproof
+
+import "github.com/hyperledger/aries-framework-go/pkg/didcomm/common/service"
+
+// VerifStates lists the state names of the Present Proof state machine (verification hook).
+func VerifStates() []string {
+	return []string{stateNameNoop, stateNameStart, StateNameAbandoned, StateNameDone,
+		stateNameRequestSent, stateNamePresentationReceived, stateNameProposalReceived,
+		stateNameRequestReceived, stateNamePresentationSent, stateNameProposalSent}
+}
+
+// VerifCanTransition evaluates the real CanTransitionTo on two state names (protocol version v).
+func VerifCanTransition(from, to, v string) bool {
+	return stateFromName(from, v).CanTransitionTo(stateFromName(to, v))
+}
+
+// VerifMsgTypes lists the message types of the protocol (both versions).
+func VerifMsgTypes() []string {
+	return []string{RequestPresentationMsgTypeV2, ProposePresentationMsgTypeV2, PresentationMsgTypeV2,
+		ProblemReportMsgTypeV2, AckMsgTypeV2,
+		RequestPresentationMsgTypeV3, ProposePresentationMsgTypeV3, PresentationMsgTypeV3,
+		ProblemReportMsgTypeV3, AckMsgTypeV3}
+}
+
+// VerifMsgTarget returns the name of the state a message of the given type and direction leads to.
+func VerifMsgTarget(msgType string, outbound bool) string {
+	d := inboundMessage
+	if outbound {
+		d = outboundMessage
+	}
+
+	s, err := nextState(service.DIDCommMsgMap{"@type": msgType, "type": msgType}, d)
+	if err != nil || s == nil {
+		return ""
+	}
+
+	return s.Name()
+}
